@@ -67,11 +67,19 @@ Init ==
        case = [k |-> "doc", fps |-> fps, sl |-> sl,
                ff |-> [i \in 1..Len(DocPaths) |-> FindFiles(fps, DocPaths[i])],
                lf |-> [i \in 1..Len(DocPaths) |-> LicenceFor(fps, sl, DocPaths[i])]]
+  \* four and five Files paragraphs: an early '*' paragraph, later more specific ones, the last match wins
+  \/ \E a \in { FP(<<1>>, "sp", 1, FALSE), FP(<<1>>, "nl", 2, TRUE) }, b \in { FP(<<2>>, "sp", 2, TRUE), FP(<<3, 7>>, "tab", 1, FALSE) },
+        c \in { FP(<<5>>, "sp", 1, TRUE), FP(<<4, 6>>, "nl", 2, FALSE) }, d \in { FP(<<3>>, "sp", 2, FALSE), FP(<<2, 5>>, "sp", 1, TRUE) }, five \in BOOLEAN :
+       LET fps == IF five THEN <<a, b, c, d, b>> ELSE <<a, b, c, d>>  sl == <<2, 1>> IN
+       case = [k |-> "doc", fps |-> fps, sl |-> sl,
+               ff |-> [i \in 1..Len(DocPaths) |-> FindFiles(fps, DocPaths[i])],
+               lf |-> [i \in 1..Len(DocPaths) |-> LicenceFor(fps, sl, DocPaths[i])]]
   \/ \E a \in FPs, b \in { FP(<<1>>, "sp", 1, FALSE), FP(<<3>>, "nl", 2, TRUE) }, c \in { FP(<<2>>, "sp", 2, FALSE), FP(<<4, 5>>, "tab", 1, TRUE) } :
        LET fps == <<b, a, c>> sl == <<2, 1, 2>> IN
        case = [k |-> "doc", fps |-> fps, sl |-> sl,
                ff |-> [i \in 1..Len(DocPaths) |-> FindFiles(fps, DocPaths[i])],
                lf |-> [i \in 1..Len(DocPaths) |-> LicenceFor(fps, sl, DocPaths[i])]]
+\* (continued below)
 \* laws of Match that TLC checks on every glob row
 GlobLaws == case.k = "glob" =>
   /\ (case.pat = <<"*">> => case.m = Paths)
